@@ -9,12 +9,12 @@ notes_path = os.path.join(os.path.dirname(os.path.abspath(__file__)), "seeded_no
 notes = json.load(open(notes_path)) if os.path.exists(notes_path) else {}
 first = {}
 for f in first_logs:
-    for l in open(f):
+    for l in open(f, errors="replace"):
         m = re.match(r"(C\d\d)/([ab]) .*check\[\w+\]=(\w[\w-]*)", l)
         if m:
             first.setdefault((m.group(1), m.group(2)), m.group(3))
 final = {}
-for l in open(eval_log):
+for l in open(eval_log, errors="replace"):
     m = re.match(r"(C\d\d)/([ab]) demo\(clean\)=(\d+) demo\(patched\)=(\d+) tests='([^']*)' check\[(\w+)\]=(\S+) :: (.*)", l)
     if m:
         final[(m.group(1), m.group(2))] = m.groups()[2:]
